@@ -32,6 +32,7 @@ def check(chk, thorough=False):
     chk.run('C19.m', 'R-ESCAPE', 'the report opportunity is reached on both arms of the forwarder: log_name(), called on the success arm AND inside the failure arm, only formats the destination and the identity (nothing that can raise for a container whose payload data was taken out by fragmentation)', lambda ob: c19m(tree, ob), floor=2)
     chk.run('C19.n', 'R-PAIR', 'every bundle put on the forwarding queue gets its own idle call of the forwarder, which handles one bundle per call', lambda ob: c19n(tree, ob), floor=2)
     chk.run('C19.f', 'R-TYPE', 'the reported reason is a reason code (= C12.f)', lambda ob: c12f(tree, ob), floor=2)
+    chk.run('C19.p', 'R-ESCAPE', 'a log line cannot turn a completed step into a failure: no log call of the agent has a placeholder / argument mismatch while a logging filter of the repository formats records eagerly', lambda ob: __import__('sa.props.common', fromlist=['log_calls_cannot_raise']).log_calls_cannot_raise(tree, ob, ['bp/agent.py', 'bp/util.py', 'bp/cla.py']), floor=1)
     chk.run('C19.o', 'R-FLOW', 'a report finds the route that exists when it is sent: the transmit route is taken from a walk of the table each time, first match, never from remembered lookups (= C05.k)', lambda ob: __import__('sa.props.c05', fromlist=['c05k']).c05k(tree, ob), floor=3)
     chk.run('C19.g', 'R-WHO', 'the forwarding path does not rewrite report-to / flags / source / creation timestamp of the subject before its report is generated (= C11.a restricted to report-relevant fields)', lambda ob: c11a(tree, ob, only=('report_to', 'bundle_flags', 'source', 'create_ts')), floor=1)
 
